@@ -756,13 +756,18 @@ class Model:
                     tgt, val = a.target, a.value
                 kind = empty(val) if isinstance(tgt, ast.Name) else None
                 comp = None
-                if kind and isinstance(b, ast.For) and not b.orelse and len(b.body) == 1:
-                    st = b.body[0]
+                if kind and isinstance(b, ast.For) and not b.orelse and len(
+                        [x for x in b.body if not isinstance(x, ast.Assert)]) == 1:
+                    st = next(x for x in b.body if not isinstance(x, ast.Assert))
                     gen = [ast.comprehension(target=b.target, iter=b.iter, ifs=[], is_async=0)]
                     inner = st
-                    if isinstance(st, ast.If) and not st.orelse and len(st.body) == 1:
-                        gen[0].ifs = [st.test]
-                        inner = st.body[0]
+                    if isinstance(st, ast.If) and not st.orelse:
+                        # (assertions next to the filling statement are not part of
+                        # the value that is built)
+                        core = [x for x in st.body if not isinstance(x, ast.Assert)]
+                        if len(core) == 1:
+                            gen[0].ifs = [st.test]
+                            inner = core[0]
                     uses = lambda e: any(isinstance(x, ast.Name) and x.id == tgt.id   # noqa
                                          for x in ast.walk(e))
                     if kind == "dict" and isinstance(inner, ast.Assign) \
@@ -789,6 +794,25 @@ class Model:
                                           value=comp, lineno=a.lineno))
                     i += 2
                     continue
+                # x = A; if T(x): x = B(x)   ==>   x = B(A) if T(A) else A   (A a plain
+                # name or attribute chain: evaluating it twice changes nothing)
+                if isinstance(tgt, ast.Name) and isinstance(b, ast.If) and not b.orelse \
+                        and len(b.body) == 1 and isinstance(b.body[0], ast.Assign) \
+                        and len(b.body[0].targets) == 1 \
+                        and isinstance(b.body[0].targets[0], ast.Name) \
+                        and b.body[0].targets[0].id == tgt.id and _plain(val):
+                    class S_(ast.NodeTransformer):
+                        def visit_Name(self, x, tgt=tgt, val=val):
+                            if x.id == tgt.id and isinstance(x.ctx, ast.Load):
+                                return _cp(val)
+                            return x
+                    out.append(ast.Assign(
+                        targets=[ast.Name(id=tgt.id, ctx=ast.Store())],
+                        value=ast.IfExp(test=S_().visit(_cp(b.test)),
+                                        body=S_().visit(_cp(b.body[0].value)),
+                                        orelse=_cp(val)), lineno=a.lineno))
+                    i += 2
+                    continue
                 for fld in ("body", "orelse", "finalbody"):
                     blk = getattr(a, fld, None)
                     if isinstance(blk, list) and blk and isinstance(blk[0], ast.stmt):
@@ -812,7 +836,12 @@ class Model:
         and fill-loops written as comprehensions: the form in which 'extract
         helper', 'hoist into a local' and 'comprehension <-> loop' refactorings of
         one function look alike."""
-        return self.expand_locals(self.comprehensions(self.expand_locals(self.inlined(fd))))
+        cache = self.__dict__.setdefault("_normal_cache", {})
+        if id(fd) not in cache:
+            from pta.pat import canon
+            cache[id(fd)] = canon(self.expand_locals(self.comprehensions(
+                self.expand_locals(self.inlined(fd)))))
+        return cache[id(fd)]
 
     def returns_by_condition(self, fd):
         """[(conditions, value node)] for every return of ``fd`` (in tail form):
@@ -1013,6 +1042,20 @@ class Model:
 _MUTATORS = {"append", "extend", "insert", "add", "update", "pop", "popitem", "remove",
              "discard", "clear", "setdefault", "sort", "reverse", "appendleft",
              "difference_update", "intersection_update", "symmetric_difference_update"}
+
+
+def _plain(e):
+    """an expression that may be written twice without changing what a reader (or a
+    rule) understands: no mutating call, no next(), no yield/await/walrus"""
+    for x in ast.walk(e):
+        if isinstance(x, (ast.Yield, ast.YieldFrom, ast.Await, ast.NamedExpr)):
+            return False
+        if isinstance(x, ast.Call):
+            if isinstance(x.func, ast.Attribute) and x.func.attr in _MUTATORS:
+                return False
+            if isinstance(x.func, ast.Name) and x.func.id in ("next", "input", "open"):
+                return False
+    return True
 
 
 def _tail_form(stmts):
